@@ -372,3 +372,27 @@ func VerifC16_DevmodManyModules() {
 	verif.Reached("end")
 }
 
+
+// a devmod:modules chunk that fills a DeviceServiceInfo message exactly (followed by
+// the forced break before the next chunk) does not stall the exchange
+func VerifC16_DevmodExactFill() {
+	verif.NoPanic()
+	verif.SetGhost("clock-concrete", 1)
+	verif.Bound("C16 exact fill", "P-256; 25 device modules with 65-byte names at the default MTU 1300 (the first module chunk is exactly MTU-5 bytes), and 24/26 modules as neighbours; one owner module finishing immediately")
+	n := 24 + verif.Choose("nmods", 3)
+	w := vMkC16(vcP256, 1300, 1300)
+	for i := 0; i < n; i++ {
+		name := "m" + string(rune('a'+i/10)) + string(rune('0'+i%10))
+		for len(name) < 65 {
+			name += "x"
+		}
+		w.addDevice(name, nil)
+	}
+	w.addOwner("O")
+	cred, err := TO2(context.Background(), w.t.loop, nil, w.t.cfg)
+	verif.Assert(err == nil && cred != nil, "honest TO2 succeeds when a module chunk fills a message exactly")
+	w.checkDevmod()
+	w.checkDone()
+	verif.Assert(len(w.t.loop.sent) < 40, "the exchange does not degenerate into empty round trips")
+	verif.Reached("end")
+}
